@@ -22,7 +22,7 @@ SLICES = {
 
 def validate_one(ctx, k, rec):
     p = os.path.join(ctx.build, "c05.t%d.ndjson" % k)
-    clean = not rec["scn"]["serverFail"]
+    clean = rec["scn"]["srvFault"].startswith("none")
     lines = [dict(plan=rec["plan"], maxServers=rec["maxServers"], clean=clean)] + rec["events"]
     vf.write_ndjson(p, lines)
     r = ctx.tlc("Trace_Runner", "Trace_Runner.cfg", workers=1, env=dict(VERIF_TRACE=p), timeout=900, heap="2g")
@@ -53,12 +53,12 @@ def run(ctx):
         pick = [json.load(open(ctx.replay))["scenario"]["abstract"]]
     else:
         pick = rnd.sample(space, 20 if q else 160)
-        pick += [s for s in space if s["serverFail"] and s["config"] == "h1h2c-all" and s["slice"] == "basic-unary" and s["par"] == 4 and s["maxServers"] == 2]
+        pick += [s for s in space if s["srvFault"] != "none:0" and s["config"] == "h1h2c-all" and s["slice"] == "basic-unary" and s["par"] == 4 and s["maxServers"] in (1, 2)]
     scns = []
     for s in pick:
         run_p, skip_p = SLICES[s["slice"]]
         scns.append(dict(config=CONFIGS[s["config"]], run=run_p, skip=skip_p, maxServers=s["maxServers"], par=s["par"],
-                         serverFail=s["serverFail"]))
+                         serverFail=False, srvFault=s["srvFault"]))
     scnp, outp = os.path.join(ctx.build, "c05.scn"), os.path.join(ctx.build, "c05.out")
     vf.write_ndjson(scnp, scns)
     d = os.path.join(ctx.build, "c05run")
@@ -91,7 +91,7 @@ def run(ctx):
     for (k, rec), bad in zip(todo, results):
         if bad:
             ev = bad["event"]
-            ctx.candidate(dict(kind="trace-rejected", event=ev.get("e"), serverFail=pick[k]["serverFail"]),
+            ctx.candidate(dict(kind="trace-rejected", event=ev.get("e"), srvFault=pick[k]["srvFault"]),
                           "end-to-end run is not a behaviour of Runner: event #%d %s cannot be explained (preceding: %s); scenario=%s run error=%r" % (
                               bad["line"], json.dumps(ev)[:500], json.dumps(bad["before"])[:400], json.dumps(pick[k]), rec.get("err")),
                           dict(abstract=pick[k], bad=bad))
